@@ -8,6 +8,8 @@
      server (an extra empty server is always present);
  (a') 2-of-2 with 3000-byte shares (a Share then has SEVERAL reads outstanding at once): one share number stored
      twice, one of its two holders fails every read - every schedule with <= 2 (thorough 3) deviations;
+ (a'') 13 servers (the share finder keeps at most 10 queries outstanding): the only k shares on every pair of
+     servers, all others empty - default schedule (thorough d <= 1);
  (b) for representative cases: every schedule with <= d deviations (reordered deliveries, the
      share finder's OVERDUE timers fired early) and <= f injected faults (error before a call /
      connection loss, at any remote call).
@@ -122,6 +124,17 @@ def dup_cases():
     return out
 
 
+def many_server_cases():
+    """13 servers (more than the share finder's window of 10 outstanding queries): exactly k shares exist, on
+    EVERY pair of servers - so also on the ones asked last, after the window has been full -, the others are empty"""
+    out = []
+    S = 13
+    for i in range(S):
+        for j in range(i + 1, S):
+            out.append(dict(BASE, S=S, placement={"0": [i], "1": [j]}, damage={}, server_kind={}, groups=[[[0, None]]]))
+    return out
+
+
 def replay(case):
     trace, viol, obs = lib_imm.run_reads(case["case"], case["prefix"], boot.SEED)
     return viol
@@ -134,6 +147,8 @@ def run(tier, seed):
     res.merge(common.pmap(lib_imm.explore_chunk, lf, (seed, 0, 0, None, "C03")))
     res.merge(common.pmap(lib_imm.explore_chunk, [dict(c, batch=True) for c in lf[::2]], (seed, 0, 0, None, "C03")))
     n0 = res.counts.get("executions", 0)
+    ms = many_server_cases()
+    res.merge(common.pmap(lib_imm.explore_chunk, ms, (seed, 0 if tier == "quick" else 1, 0, 20000, "C03")))
     dc = dup_cases()
     res.merge(common.pmap(lib_imm.explore_chunk, dc, (seed, 2 if tier == "quick" else 3, 0, 20000, "C03"), chunks=len(dc)))
     reps = rep_cases()
